@@ -73,7 +73,10 @@ func H07mT() { h07m(2) }
 // matches of X alone, shifted by the size of the preceding block.
 func h07m(edits int) {
 	t := []float64{0.7, 0.8}[vxChoice(2)]
-	worlds := [][]int{{0}, {1}, {0, 1}, {2, 3}}
+	worlds := [][]int{{1}, {0, 1}}
+	if edits > 1 {
+		worlds = [][]int{{0}, {1}, {0, 1}, {2, 3}}
+	}
 	docs := worlds[vxChoice(len(worlds))]
 	c := vxBuildWorld(t, docs...)
 	K := vxFamily[docs[vxChoice(len(docs))]]
@@ -85,7 +88,8 @@ func h07m(edits int) {
 		xb[len(xb)-1] = false
 	}
 	alone := vxText(xw, xb)
-	a, b := vxChoice(3)+1, vxChoice(3)+1
+	a, b := vxChoice(4), vxChoice(4) // 0 = X at the very start / very end of the input
+	vxAssume(a+b > 0)
 	plines := vxChoice(2) + 1 // the prefix block occupies 1 or 2 lines and ends with a newline
 	var pre []byte
 	for i := 0; i < a; i++ {
@@ -103,7 +107,9 @@ func h07m(edits int) {
 		}
 	}
 	var suf []byte
-	suf = append(suf, '\n')
+	if b > 0 {
+		suf = append(suf, '\n')
+	}
 	for i := 0; i < b; i++ {
 		suf = append(suf, "qqq "...)
 	}
